@@ -244,9 +244,21 @@ func PlantedKSAT(r *rand.Rand, n, m, k int) ([][]int, []bool) {
 // (a_1 v ... v a_n v z), (a_1 v ... v a_n v -z); a_{i+1} -> a_i stated as (-a_{i+1} v a_i v w_i),
 // (-a_{i+1} v a_i v -w_i); a_1 false stated as (-a_1 v u), (-a_1 v -u). The first learned clauses of a
 // CDCL run have about n literals: a family that reaches sizes random formulas never reach.
-func WideChain(r *rand.Rand, n int) (clauses [][]int, nbVars int) {
+func WideChain(r *rand.Rand, n int, ordered bool) (clauses [][]int, nbVars int) {
 	nbVars = 2*n + 1
 	perm := r.Perm(nbVars)
+	if ordered {
+		// a_1 is the first variable, the auxiliary variables follow, the other chain variables come last in
+		// decreasing order: a solver that decides variables in index order walks the chain from its far end
+		perm[0] = 0
+		for i := 1; i < n; i++ {
+			perm[i] = nbVars - i
+		}
+		for i := 0; i+1 < n; i++ {
+			perm[n+i] = 3 + i
+		}
+		perm[2*n-1], perm[2*n] = 1, 2
+	}
 	v := func(i int) int { return perm[i] + 1 }
 	a := func(i int) int { return v(i) }   // i in 0..n-1
 	w := func(i int) int { return v(n + i) } // i in 0..n-2
